@@ -2,6 +2,9 @@
 pub struct Context {
     pub mode: Mode,
     pub break_suppressed: bool,
+    /// The expression is directly followed by other content, as in `#(1)em`.
+    /// Parentheses around a literal must stay then, or the literal runs into what follows.
+    pub glued: bool,
 }
 
 impl Context {
@@ -14,6 +17,10 @@ impl Context {
             mode: if cond { mode } else { self.mode },
             ..*self
         }
+    }
+
+    pub fn with_glued(&self, glued: bool) -> Self {
+        Self { glued, ..*self }
     }
 
     pub fn suppress_breaks(&self) -> Self {
